@@ -81,6 +81,32 @@ Definition insert_range (p : plan) (key : nat) (xs : list slot) (st : fv) : fv *
 Definition insert_list := insert_range.
 Definition push_back_range (p : plan) (xs : list slot) (st : fv) : fv * outcome := insert_range p (size st) xs st.
 
+(* ---- the same member function called with a range [begin()+a, begin()+b) of THIS vector:
+   *start is then a read of the vector's own storage at the moment of the assignment (n = b - a elements remain,
+   the next one is read from slot src) ---- *)
+Fixpoint insert_self_loop (n src key : nat) (p : plan) (st : fv) : fv * outcome :=
+  match n with
+  | 0 => (st, Done)
+  | S m =>
+    if cap st <=? key then (st, Raised)
+    else match get st src with
+         | None => (st, OutOfStorage)
+         | Some x =>
+           match assign_val st p key x with
+           | (st1, p1, Done) =>
+               insert_self_loop m (S src) (S key) p1 (if key =? size st1 then set_size st1 (S (size st1)) else st1)
+           | (st1, _, o) => (st1, o)
+           end
+         end
+  end.
+Definition insert_self_range (p : plan) (key a b : nat) (st : fv) : fv * outcome :=
+  if size st <? key then (st, Raised) else insert_self_loop (b - a) a key p st.
+Definition push_back_self_range (p : plan) (a b : nat) (st : fv) : fv * outcome := insert_self_range p (size st) a b st.
+(* the caller may only hand over iterators into the live range: a <= b <= size *)
+Definition self_range_valid (st : fv) (a b : nat) : bool := (a <=? b) && (b <=? size st).
+(* an argument `v[k]` that refers to a live element of the same vector: its value when the call starts *)
+Definition live_elem (st : fv) (k : nat) : option slot := if k <? size st then get st k else None.
+
 (* ---- fixed_vector(capacity, iterable), fixed_vector(initializer_list) ----
    a constructor whose outcome is not Done has thrown: no object exists afterwards *)
 Definition make_from (p : plan) (c : nat) (xs : list slot) : fv * outcome := insert_range p 0 xs (make c).
@@ -213,7 +239,12 @@ Inductive op :=
 | OEmplace (i pos v : nat) | OEmplaceBack (i v : nat) | OInsert (i v : nat) | OInsertMove (i v : nat) | OPushBack (i v : nat)
 | OInsertRange (i pos : nat) (xs : list nat) | OInsertList (i pos : nat) (xs : list nat) | OPushBackRange (i : nat) (xs : list nat)
 | OPop (i : nat) | OErase (i pos : nat)
-| ODestroy (i : nat).
+| ODestroy (i : nat)
+(* arguments that alias the container itself: v.emplace(begin()+pos, v[k]), v.emplace_back(v[k]), v.insert(v[k]),
+   v.push_back(v[k]), v.insert(begin()+pos, begin()+a, begin()+b), v.push_back(begin()+a, begin()+b);
+   not executed (Skipped) unless k < size resp. a <= b <= size *)
+| OEmplaceAt (i pos k : nat) | OEmplaceBackAt (i k : nat) | OInsertAt (i k : nat) | OPushBackAt (i k : nat)
+| OInsertSelfRange (i pos a b : nat) | OPushBackSelfRange (i a b : nat).
 
 (* a constructor into pool[i]: the old object (if any) is destroyed first; a throwing constructor leaves nothing *)
 Definition construct (P : pool) (i : nat) (r : fv * outcome) : pool * outcome :=
@@ -241,7 +272,7 @@ Definition pstep (p : plan) (o : op) (P : pool) : pool * outcome :=
   | OAssign i j =>
       match pget P j with None => (P, Skipped) | Some src => on_obj P i (fun dst => copy_assign p dst src) end
   | OMoveAssign i j =>
-      if i =? j then (P, Skipped) else
+      (* i = j is v = std::move(v): tmp takes the array, *this gets a fresh one, swap(tmp) gives the array back *)
       match pget P i, pget P j with
       | Some dst, Some src => let r := move_assign dst src in (pset (pset P j (Some (snd r))) i (Some (fst r)), Done)
       | _, _ => (P, Skipped)
@@ -260,6 +291,18 @@ Definition pstep (p : plan) (o : op) (P : pool) : pool * outcome :=
   | OPop i => on_obj P i pop_back
   | OErase i pos => on_obj P i (erase p pos)
   | ODestroy i => if i <? length P then (pset P i None, Done) else (P, Skipped)
+  | OEmplaceAt i pos k =>
+      on_obj P i (fun st => match live_elem st k with Some s => emplace p pos s st | None => (st, Skipped) end)
+  | OEmplaceBackAt i k =>
+      on_obj P i (fun st => match live_elem st k with Some s => emplace_back p s st | None => (st, Skipped) end)
+  | OInsertAt i k =>
+      on_obj P i (fun st => match live_elem st k with Some s => insert_copy p s st | None => (st, Skipped) end)
+  | OPushBackAt i k =>
+      on_obj P i (fun st => match live_elem st k with Some s => push_back p s st | None => (st, Skipped) end)
+  | OInsertSelfRange i pos a b =>
+      on_obj P i (fun st => if self_range_valid st a b then insert_self_range p pos a b st else (st, Skipped))
+  | OPushBackSelfRange i a b =>
+      on_obj P i (fun st => if self_range_valid st a b then push_back_self_range p a b st else (st, Skipped))
   end.
 
 (* a history: every operation with its own fault plan; the list of outcomes is kept *)
